@@ -95,6 +95,10 @@ def run_request(served, supported, contexts, probe, max_len=16384, called='SRV',
 
     rot = {'A': 'B', 'B': 'C', 'C': 'Z', 'Z': 'A'}
 
+    def second_class(a):
+        others = [k for k in sorted(served) if k != a]
+        return others[(salt + len(a)) % len(others)] if others and salt % 2 == 0 else None
+
     def other_association():
         # ANOTHER peer negotiates with the same entity while this association is open: same context ids, other
         # abstract syntaxes, syntax lists reversed - its outcome is its own
@@ -110,6 +114,11 @@ def run_request(served, supported, contexts, probe, max_len=16384, called='SRV',
                     dul.inbox.append(lambda: other_association())
                 seen.add(cid)
                 dul.push_msg({0x0002: ABS[a], 0x0100: 0x0030, 0x0110: cid}, None, cid)
+                b = second_class(a)
+                if b:
+                    # a second message on the SAME context for ANOTHER class the entity serves (as meta SOP classes
+                    # do): it goes to the service of the class the message names, with the context it arrived on
+                    dul.push_msg({0x0002: ABS[b], 0x0100: 0x0030, 0x0110: cid}, None, cid)
         if probe is not None:
             a = dict((c[0], c[1]) for c in contexts).get(probe, 'A' if 'A' in served else 'Z')
             dul.push_msg({0x0002: ABS[a], 0x0100: 0x0030, 0x0110: 999}, None, probe)
@@ -177,6 +186,8 @@ def run_request(served, supported, contexts, probe, max_len=16384, called='SRV',
         if ok and cid not in seen:
             seen.add(cid)
             want_calls.append((a, (cid, on_wire[cid][0], on_wire[cid][1]), 'CEchoRQMessage'))
+            if second_class(a):
+                want_calls.append((second_class(a), (cid, on_wire[cid][0], on_wire[cid][1]), 'CEchoRQMessage'))
     got_calls = [(n, (c[0], str(c[1]), str(c[2])), m) for n, c, m in CALLS]
     if got_calls != want_calls:
         raise Violation('C09:routing', 'services invoked %r, expected %r' % (got_calls, want_calls), case)
